@@ -26,6 +26,7 @@ import (
 	"os"
 	"os/exec"
 	"path/filepath"
+	"reflect"
 	"regexp"
 	"sort"
 	"strconv"
@@ -51,11 +52,13 @@ func init() {
 			"on a document with patterns, uniqueItems arrays, scalar defaults, allOf/oneOf, multipart and urlencoded bodies with additionalProperties schemas; " +
 			"the same pattern text reached with two regex compilers (per-call option) × document validated with the default / the second compiler / pattern validation off × {fresh, warm}; " +
 			"fresh-process first use of eight self-referential Go types; " +
-			"then a seeded random stream of documents (1-4 operations, several methods under one path item, component schemas shared by $ref, security requirements, string formats, random schemas of depth ≤ 3, per-case unique patterns so that pattern compilation is raced even in a warm process) " +
-			"with per-call options (regex compiler, defaults, multi-error, exclusions, authentication outcome) " +
+			"slices of the shared document: one path item with 0-8 path-level parameters (encoding/json leaves 3 and 5-7 with spare capacity; the observed cap of every PathItem.Parameters is compared with the model's decodedCap) × {2 operations with 1 own required header each, 3 operations with 2/1/2 own parameters}, requests for the different operations validated concurrently, with and without their own required header; " +
+			"`type` lists (2-6 types, not in alphabetical order) with values of none of the types, 3-value enums, 3-name required lists, 3-branch oneOf × {fresh, warm}; " +
+			"then a seeded random stream of documents (1-4 operations, several methods under one path item, path-level parameters (1-7, overriding or not) next to own parameters, component schemas shared by $ref, security requirements, string/integer formats from the process-wide registries incl. two custom ones and a custom body decoder registered at process start, type lists, enums, random schemas of depth ≤ 3, per-case unique patterns so that pattern compilation is raced even in a warm process) " +
+			"with per-call options (regex compiler, defaults, multi-error, exclusions, authentication outcome, generator customizer callback) " +
 			"and 2-6 calls run by 2-12 goroutines, 1-3 calls each, 1-2 rounds on freshly loaded documents. Every case runs in a child of the -race harness; " +
 			"verdicts are compared with the same call run alone on a freshly loaded document — for fresh-process cases alone means in two FURTHER fresh processes that run the calls sequentially in forward and reverse order (process-wide caches survive a reloaded document) —; the document's canonical JSON is compared before/after. " +
-			"A case is non-trivial when at least two goroutines run (the driver reports operation kinds, kind pairs, raced cells).",
+			"A case is non-trivial when at least two goroutines run (the driver reports operation kinds, kind pairs, raced cells, slice shapes, registries).",
 		Exhaustive: true,
 		Gen:        genC15,
 		Run:        runC15,
@@ -228,16 +231,7 @@ func c15DocJSON(doc map[string]any) []byte {
 			paths[jstr(op, "path")] = item
 		}
 		oper := map[string]any{}
-		var params []any
-		for _, p := range jlist(op["params"]) {
-			pm := p.(map[string]any)
-			q := map[string]any{"name": pm["name"], "in": pm["in"], "schema": pm["schema"]}
-			if jstr(pm, "in") == "path" || jbool(pm, "required") {
-				q["required"] = true
-			}
-			params = append(params, q)
-		}
-		if params != nil {
+		if params := c15Params(jlist(op["params"])); params != nil {
 			oper["parameters"] = params
 		}
 		if b, ok := op["body"].(map[string]any); ok {
@@ -252,6 +246,16 @@ func c15DocJSON(doc map[string]any) []byte {
 			oper["security"] = []any{map[string]any{"k": []any{}}}
 		}
 		item[jstr(op, "method")] = oper
+	}
+	// path-level parameters (PathItem.Parameters): shared by all operations of the path item
+	if items, ok := doc["items"].(map[string]any); ok {
+		for path, l := range items {
+			if item, ok := paths[path].(map[string]any); ok {
+				if params := c15Params(jlist(l)); params != nil {
+					item["parameters"] = params
+				}
+			}
+		}
 	}
 	d := map[string]any{"openapi": "3.0.0", "info": map[string]any{"title": "t", "version": "1"}, "paths": paths}
 	comps := map[string]any{}
@@ -271,6 +275,37 @@ func c15DocJSON(doc map[string]any) []byte {
 	}
 	b, _ := json.Marshal(d)
 	return b
+}
+
+func c15Params(l []any) []any {
+	var params []any
+	for _, p := range l {
+		pm := p.(map[string]any)
+		q := map[string]any{"name": pm["name"], "in": pm["in"], "schema": pm["schema"]}
+		if jstr(pm, "in") == "path" || jbool(pm, "required") {
+			q["required"] = true
+		}
+		params = append(params, q)
+	}
+	return params
+}
+
+// c15Caps: [path, len, cap] of every non-empty PathItem.Parameters of the loaded document, sorted by path: which of
+// the document's slices the decoder left with spare capacity (compared with the model's `decodedCap`)
+func (w *c15World) caps() []any {
+	out := []any{}
+	m := w.doc.Paths.Map()
+	ks := make([]string, 0, len(m))
+	for k := range m {
+		ks = append(ks, k)
+	}
+	sort.Strings(ks)
+	for _, k := range ks {
+		if pi := m[k]; pi != nil && len(pi.Parameters) > 0 {
+			out = append(out, []any{k, len(pi.Parameters), cap(pi.Parameters)})
+		}
+	}
+	return out
 }
 
 type c15World struct {
@@ -489,6 +524,11 @@ func c15Request(w *c15World, docSpec, call map[string]any) *http.Request {
 	if jbool(call, "key") {
 		req.Header.Set("X-Key", "secret")
 	}
+	if hm, ok := call["headers"].(map[string]any); ok {
+		for k, v := range hm {
+			req.Header.Set(k, fmt.Sprint(v))
+		}
+	}
 	return req
 }
 
@@ -624,6 +664,15 @@ func c15Exec(w *c15World, docSpec, call map[string]any) (res string) {
 				opts = append(opts, openapi3gen.ThrowErrorOnCycle())
 			case "components":
 				opts = append(opts, openapi3gen.CreateComponentSchemas(openapi3gen.ExportComponentSchemasOptions{ExportComponentSchemas: true}))
+			case "customizer":
+				// a per-call callback that edits every schema the generator produces
+				opts = append(opts, openapi3gen.SchemaCustomizer(func(name string, t reflect.Type, tag reflect.StructTag, schema *openapi3.Schema) error {
+					schema.Description = "c15:" + name + ":" + t.Kind().String()
+					if schema.Type != nil && schema.Type.Is("string") {
+						schema.MinLength = 1
+					}
+					return nil
+				}))
 			}
 		}
 		ref, err := openapi3gen.NewSchemaRefForValue(c15GenValues[t], schemas, opts...)
@@ -637,9 +686,38 @@ func c15Exec(w *c15World, docSpec, call map[string]any) (res string) {
 	return "unknown call kind"
 }
 
+// ---------------------------------------------------------------- process-wide registries
+
+var c15RegOnce sync.Once
+
+// c15Registries fills the library's process-wide registries (string / integer formats, body decoders) once, at the
+// start of the child process, before any goroutine is started: registration is not among the concurrent calls, the
+// READS of the registries by concurrent validations are.
+func c15Registries() {
+	c15RegOnce.Do(func() {
+		openapi3.DefineStringFormatValidator("c15fmt", openapi3.NewRegexpFormatValidator(`^[a-c]+$`))
+		openapi3.DefineIntegerFormatValidator("c15even", openapi3.NewCallbackValidator(func(v int64) error {
+			if v%2 != 0 {
+				return fmt.Errorf("odd")
+			}
+			return nil
+		}))
+		openapi3filter.RegisterBodyDecoder("application/x-c15", func(body io.Reader, _ http.Header, _ *openapi3.SchemaRef, _ openapi3filter.EncodingFn) (any, error) {
+			var v any
+			dec := json.NewDecoder(body)
+			dec.UseNumber()
+			if err := dec.Decode(&v); err != nil {
+				return nil, &openapi3filter.ParseError{Kind: openapi3filter.KindInvalidFormat, Cause: err}
+			}
+			return v, nil
+		})
+	})
+}
+
 // ---------------------------------------------------------------- one case (child side)
 
 func runC15Child(c hx.Case) any {
+	c15Registries()
 	docSpec, _ := c["doc"].(map[string]any)
 	calls := jlist(c["calls"])
 	g, per, rounds := c15Int(c["g"]), c15Int(c["per"]), c15Int(c["rounds"])
@@ -681,12 +759,16 @@ func runC15Child(c hx.Case) any {
 	var all []obs
 	docChanged := false
 	var changedNote string
+	var caps []any
 	for r := 0; r < rounds; r++ {
 		w, err := c15Load(data)
 		if err != nil {
 			return map[string]any{"kind": "setup", "setupError": err.Error()}
 		}
 		before := w.snapshot()
+		if r == 0 {
+			caps = w.caps()
+		}
 		results := make([][]obs, g)
 		start := make(chan struct{})
 		var wg sync.WaitGroup
@@ -809,7 +891,7 @@ func runC15Child(c hx.Case) any {
 			other = append(other, r.Summary)
 		}
 	}
-	out := map[string]any{"race": len(kin) > 0, "diverge": len(divs) > 0, "docChanged": docChanged, "detector": raceEnabled}
+	out := map[string]any{"race": len(kin) > 0, "diverge": len(divs) > 0, "docChanged": docChanged, "detector": raceEnabled, "caps": caps}
 	kind := "clean"
 	if len(kin) > 0 {
 		kind = "race"
@@ -916,6 +998,13 @@ func cmpC15(c hx.Case, impl any, reply map[string]any) hx.Verdict {
 	}
 	// the detector is sound, not complete: a race it reports must be in the model; a race of the model may go unreported
 	imOK := (!iRace || jbool(model, "race")) && iDiv == jbool(model, "diverge") && iDoc == jbool(model, "docChanged")
+	if ic, ok := im["caps"]; ok && ic != nil {
+		// the model's account of which path-level parameter lists were decoded with spare capacity
+		if a, b := hx.Canon(ic), hx.Canon(reply["caps"]); a != b {
+			imOK = false
+			detail += fmt.Sprintf(" decoded capacities [path, len, cap]: library %s, model %s", a, b)
+		}
+	}
 	isOK := iRace == jbool(spec, "race") && iDiv == jbool(spec, "diverge") && iDoc == jbool(spec, "docChanged")
 	return hx.Verdict{IM: imOK, IS: isOK, Detail: strings.TrimSpace(detail)}
 }
@@ -928,6 +1017,7 @@ type c15Gen struct {
 	tag string // makes the patterns of this case unique in the process (cold compile even when warm)
 	n   int
 	sharedDefaults bool // may produce the schema shape of the repaired finding F-C15-1 (object default receiving nested defaults)
+	lists bool // may produce `type` lists, enums, 3-branch compositions, 3-name `required` lists, path-level parameters
 }
 
 func (g *c15Gen) pattern() string {
@@ -946,7 +1036,33 @@ func (g *c15Gen) pattern() string {
 
 var c15Strings = []string{"ab", "abab", "x12", "zz", "", "abc", "ba", "AB", "aBAb", "X12", "2020-01-02"}
 
+// lists of the document that encoding/json leaves with spare capacity (3, 5-7 elements): `type` lists (not in
+// alphabetical order), `enum`
+var c15TypeLists = [][]any{{"string", "number", "boolean"}, {"string", "integer"}, {"object", "array", "string"},
+	{"string", "number", "integer", "boolean", "array"}, {"number", "boolean"}, {"string", "boolean", "object", "number", "integer", "array"}}
+
+func c15TypeListSchema(tl []any) map[string]any {
+	s := map[string]any{"type": tl}
+	for _, t := range tl {
+		if t == "array" {
+			s["items"] = map[string]any{"type": "integer"} // document validation wants items next to an array type
+		}
+	}
+	return s
+}
+
 func (g *c15Gen) scalar() map[string]any {
+	if g.lists && g.r.Chance(12) {
+		// entries of the process-wide format registries (custom ones registered at process start, and built-in ones)
+		return hx.Pick(g.r, []map[string]any{{"type": "string", "format": "c15fmt"}, {"type": "integer", "format": "c15even"},
+			{"type": "integer", "format": "int32"}, {"type": "string", "format": "date-time"}})
+	}
+	if g.lists && g.r.Chance(18) {
+		if g.r.Bool() {
+			return c15TypeListSchema(hx.Pick(g.r, c15TypeLists))
+		}
+		return map[string]any{"type": "string", "enum": hx.Pick(g.r, [][]any{{"ab", "zz", "x12"}, {"ab", "abab", "ba", "AB", "abc"}, {"ab", "zz"}})}
+	}
 	switch g.r.Intn(4) {
 	case 0:
 		s := map[string]any{"type": "string"}
@@ -1002,7 +1118,11 @@ func (g *c15Gen) schema(depth int) map[string]any {
 		return g.object(depth)
 	case 6:
 		k := hx.Pick(g.r, []string{"allOf", "anyOf", "oneOf"})
-		return map[string]any{k: []any{g.object(depth - 1), g.object(depth - 1)}}
+		l := []any{g.object(depth - 1), g.object(depth - 1)}
+		if g.lists && g.r.Chance(50) {
+			l = append(l, g.object(depth-1)) // three branches: decoded with cap 4
+		}
+		return map[string]any{k: l}
 	default:
 		s := g.object(depth)
 		s["additionalProperties"] = g.schema(depth - 1)
@@ -1020,6 +1140,9 @@ func (g *c15Gen) object(depth int) map[string]any {
 	s := map[string]any{"type": "object", "properties": props}
 	if g.r.Chance(30) {
 		s["required"] = []any{"a"}
+		if g.lists && g.r.Bool() {
+			s["required"] = []any{"a", "b", "c"}[:1+g.r.Intn(3)]
+		}
 	}
 	if g.r.Chance(15) {
 		s["additionalProperties"] = false
@@ -1047,6 +1170,37 @@ func (g *c15Gen) value(s map[string]any, depth int) any {
 	for _, k := range []string{"allOf", "anyOf", "oneOf"} {
 		if l, ok := s[k].([]any); ok && len(l) > 0 {
 			return g.value(l[g.r.Intn(len(l))].(map[string]any), depth)
+		}
+	}
+	if e, ok := s["enum"].([]any); ok && g.r.Chance(70) {
+		return hx.Pick(g.r, e)
+	}
+	if tl, ok := s["type"].([]any); ok {
+		// a value of one of the listed types — or, half of the time, of none of them (the "must be one of" error path)
+		t := hx.Pick(g.r, tl)
+		if g.r.Bool() {
+			for _, c := range []string{"object", "boolean", "string", "array", "number"} {
+				listed := false
+				for _, x := range tl {
+					listed = listed || x == c || (c == "number" && x == "integer")
+				}
+				if !listed {
+					t = c
+					break
+				}
+			}
+		}
+		switch t {
+		case "string":
+			return hx.Pick(g.r, c15Strings)
+		case "number", "integer":
+			return g.r.Intn(60) - 5
+		case "boolean":
+			return g.r.Bool()
+		case "array":
+			return []any{1, "a"}
+		default:
+			return map[string]any{"k": 1}
 		}
 	}
 	switch s["type"] {
@@ -1152,6 +1306,7 @@ func (g *c15Gen) doc(nops int) map[string]any {
 	paths := []string{"/p0/{id}", "/p1", "/p2/{id}/sub"}
 	methods := []string{"post", "put", "get", "delete", "patch"}
 	used := map[string]bool{}
+	items := map[string]any{}
 	var ops []any
 	for i := 0; i < nops; i++ {
 		// several operations may live under ONE path item (different methods): the routers pick by method
@@ -1186,11 +1341,40 @@ func (g *c15Gen) doc(nops int) map[string]any {
 		if g.r.Chance(40) {
 			params = append(params, map[string]any{"name": "X-H", "in": "header", "schema": map[string]any{"type": "string", "pattern": g.pattern()}})
 		}
+		if g.lists {
+			// path-level parameters of the path item (once per path): 1-7 of them, so that the decoded list has spare
+			// capacity (3, 5-7) or not; the path parameter may live at path level, at operation level, or at both (override)
+			if _, done := items[path]; !done && g.r.Chance(60) {
+				n := hx.Pick(g.r, []int{1, 2, 3, 3, 3, 4, 5, 6, 7})
+				var l []any
+				if strings.Contains(path, "{id}") && g.r.Chance(70) {
+					l = append(l, map[string]any{"name": "id", "in": "path", "schema": map[string]any{"type": "string"}})
+				}
+				for k := len(l); k < n; k++ {
+					ps := map[string]any{"type": "string"}
+					if g.r.Chance(30) {
+						ps["pattern"] = g.pattern()
+					}
+					l = append(l, map[string]any{"name": fmt.Sprintf("X-P%d", k), "in": "header", "schema": ps, "required": g.r.Chance(25)})
+				}
+				items[path] = l
+			}
+			// an own parameter that the other operations of the path item do not have
+			if g.r.Chance(60) {
+				params = append(params, map[string]any{"name": "X-Own-" + method, "in": "header", "schema": map[string]any{"type": "string", "minLength": 2}, "required": g.r.Chance(70)})
+			}
+			if l, ok := items[path].([]any); ok && len(params) > 0 && len(l) > 0 && strings.Contains(path, "{id}") && jstr(l[0].(map[string]any), "in") == "path" && g.r.Chance(50) {
+				params = params[1:] // the path parameter is declared at path level only
+			}
+		}
 		op["params"] = params
 		if method == "post" || method == "put" || method == "patch" {
 			switch g.r.Intn(5) {
 			case 0, 1, 4:
 				op["body"] = map[string]any{"mt": "application/json", "schema": jsonSchema()}
+				if g.lists && g.r.Chance(30) {
+					op["body"].(map[string]any)["mt"] = "application/x-c15" // decoder registered at process start
+				}
 			case 2:
 				op["body"] = map[string]any{"mt": "multipart/form-data", "schema": g.formSchema()}
 			case 3:
@@ -1205,8 +1389,12 @@ func (g *c15Gen) doc(nops int) map[string]any {
 		}
 		ops = append(ops, op)
 	}
-	return map[string]any{"ops": ops, "schemas": g.schemas, "servers": g.r.Chance(20),
+	d := map[string]any{"ops": ops, "schemas": g.schemas, "servers": g.r.Chance(20),
 		"docRx": hx.Pick(g.r, []string{"", "ci", "off"})}
+	if len(items) > 0 {
+		d["items"] = items
+	}
+	return d
 }
 
 func bodySchemaProps(s map[string]any) map[string]any {
@@ -1229,6 +1417,7 @@ func (g *c15Gen) call(kind string, doc map[string]any) map[string]any {
 	op := ops[idx].(map[string]any)
 	c := map[string]any{"k": kind}
 	reqPart := func() {
+		hdrs := map[string]any{}
 		c["op"] = idx
 		c["pathv"] = hx.Pick(g.r, []string{"7", "ab", "x12", "12", "AB"})
 		c["router"] = hx.Pick(g.r, []string{"g", "l"})
@@ -1251,10 +1440,24 @@ func (g *c15Gen) call(kind string, doc map[string]any) map[string]any {
 					}
 				}
 			case "header":
-				if g.r.Chance(80) {
+				if jstr(pm, "name") != "X-H" {
+					if g.r.Chance(85) {
+						hdrs[jstr(pm, "name")] = hx.Pick(g.r, c15Strings[:4])
+					}
+				} else if g.r.Chance(80) {
 					c["header"] = hx.Pick(g.r, c15Strings[:4])
 				}
 			}
+		}
+		if items, ok := doc["items"].(map[string]any); ok {
+			for _, p := range jlist(items[jstr(op, "path")]) {
+				if pm := p.(map[string]any); jstr(pm, "in") == "header" && g.r.Chance(85) {
+					hdrs[jstr(pm, "name")] = hx.Pick(g.r, c15Strings[:4])
+				}
+			}
+		}
+		if len(hdrs) > 0 {
+			c["headers"] = hdrs
 		}
 	}
 	switch kind {
@@ -1282,8 +1485,8 @@ func (g *c15Gen) call(kind string, doc map[string]any) map[string]any {
 		if b, ok := op["body"].(map[string]any); ok {
 			bs := b["schema"].(map[string]any)
 			switch jstr(b, "mt") {
-			case "application/json":
-				c["ct"] = "application/json"
+			case "application/json", "application/x-c15":
+				c["ct"] = jstr(b, "mt")
 				c["body"] = jsonText(g.value(bs, 0))
 			case "multipart/form-data":
 				var parts []any
@@ -1362,6 +1565,9 @@ func (g *c15Gen) call(kind string, doc map[string]any) map[string]any {
 		if g.r.Chance(20) {
 			opts = append(opts, "components")
 		}
+		if g.r.Chance(30) {
+			opts = append(opts, "customizer")
+		}
 		c["opts"] = opts
 	}
 	return c
@@ -1435,6 +1641,77 @@ func c15SinkCall(kind string, variant int) map[string]any {
 	}
 }
 
+// c15PathItemCase: one path item `/pi/{id}` with nItem path-level parameters and operations with different own parameters.
+func c15PathItemCase(nItem, variant, n int) hx.Case {
+	str := map[string]any{"type": "string", "minLength": 2}
+	var item []any
+	if nItem > 0 {
+		item = append(item, map[string]any{"name": "id", "in": "path", "schema": map[string]any{"type": "string"}})
+	}
+	for k := 1; k < nItem; k++ {
+		item = append(item, map[string]any{"name": fmt.Sprintf("X-P%d", k), "in": "header", "schema": str, "required": k == 1})
+	}
+	own := func(names ...string) []any {
+		var l []any
+		if nItem == 0 {
+			l = append(l, map[string]any{"name": "id", "in": "path", "schema": map[string]any{"type": "string"}})
+		}
+		for _, nm := range names {
+			l = append(l, map[string]any{"name": nm, "in": "header", "schema": str, "required": true})
+		}
+		return l
+	}
+	methods := []string{"get", "delete", "put"}
+	owns := [][]string{{"X-Get"}, {"X-Delete"}, {"X-Put"}}
+	if variant == 1 {
+		owns = [][]string{{"X-Get", "X-Get2"}, {"X-Delete"}, {"X-Put", "X-Put2"}}
+	}
+	nops := 2 + variant
+	var ops, calls []any
+	for i := 0; i < nops; i++ {
+		ops = append(ops, map[string]any{"path": "/pi/{id}", "method": methods[i], "params": own(owns[i]...)})
+		good := map[string]any{"X-P1": "ab"}
+		for _, h := range owns[i] {
+			good[h] = "ab"
+		}
+		calls = append(calls, map[string]any{"k": "vreq", "op": i, "pathv": "7", "router": []string{"g", "l"}[i%2], "headers": good, "multi": i == 1, "skipDefaults": true})
+	}
+	// a request that lacks its own required header: rejected alone, with a message naming that header
+	calls = append(calls, map[string]any{"k": "vreq", "op": 0, "pathv": "7", "router": "g", "headers": map[string]any{"X-P1": "ab"}, "multi": true, "skipDefaults": true})
+	doc := map[string]any{"ops": ops, "schemas": map[string]any{}}
+	if item != nil {
+		doc["items"] = map[string]any{"/pi/{id}": item}
+	}
+	return hx.Case{"doc": doc, "calls": calls, "g": 8, "per": 4, "rounds": 2, "cold": false, "sched": 700 + n}
+}
+
+// c15SchemaListCase: lists inside schemas that are decoded with spare capacity, and values that take the error paths
+// which print / walk those lists
+func c15SchemaListCase(v int, cold bool, n int) hx.Case {
+	tl := c15TypeLists[[]int{0, 3, 5}[v%3]]
+	tag := fmt.Sprintf("sl%d", n)
+	s0 := map[string]any{"type": "object", "required": []any{"t", "e", "k"}, "properties": map[string]any{
+		"t": c15TypeListSchema(tl),
+		"e": map[string]any{"type": "string", "enum": []any{"ab", "zz", "x12"}},
+		"k": map[string]any{"oneOf": []any{map[string]any{"type": "integer"}, map[string]any{"type": "boolean"}, map[string]any{"type": "string", "pattern": "^[ab]+(" + tag + ")?$"}}},
+	}}
+	doc := map[string]any{
+		"ops": []any{map[string]any{"path": "/p1", "method": "post", "params": []any{
+			map[string]any{"name": "q", "in": "query", "schema": c15TypeListSchema(tl)}},
+			"body": map[string]any{"mt": "application/json", "schema": map[string]any{"$ref": "#/components/schemas/S0"}},
+			"resp": map[string]any{"schema": map[string]any{"type": "array", "items": map[string]any{"$ref": "#/components/schemas/S0"}}}}},
+		"schemas": map[string]any{"S0": s0},
+	}
+	calls := []any{
+		map[string]any{"k": "visit", "schema": "S0", "value": `{"t":null,"e":"nope","k":[]}`, "opts": []any{"multi"}},
+		map[string]any{"k": "visit", "schema": "S0", "value": `{"t":"ab","e":"ab","k":"ab"}`, "opts": []any{}},
+		map[string]any{"k": "vreq", "op": 0, "router": "g", "ct": "application/json", "body": `{"t":{"x":null},"e":"zz"}`, "multi": true, "skipDefaults": false},
+		map[string]any{"k": "vreq", "op": 0, "router": "l", "ct": "application/json", "body": `{"t":1.5,"e":"x12","k":true}`, "multi": false, "skipDefaults": true},
+		map[string]any{"k": "vresp", "op": 0, "router": "g", "multi": true, "body": `[{"t":null,"e":"ab","k":1},{"t":"s","e":"q","k":"zz"}]`},
+	}
+	return hx.Case{"doc": doc, "calls": calls, "g": 8, "per": 3, "rounds": 2, "cold": cold, "sched": 800 + n}
+}
+
 func genC15(ctx *hx.Ctx, emit func(hx.Case)) {
 	r := ctx.Rng
 	// exhaustive: every unordered pair of operation kinds, first use raced (fresh process) and warm
@@ -1506,16 +1783,40 @@ func genC15(ctx *hx.Ctx, emit func(hx.Case)) {
 			}
 		}
 	}
+	// slices of the shared document. A path item with n = 0..8 path-level parameters (encoding/json leaves the list with
+	// spare capacity for n = 3, 5, 6, 7) and two or three operations whose OWN parameters differ (a required header each;
+	// one variant with two own parameters, which no longer fit into the spare slot of n = 3 but do for n = 5, 6):
+	// requests for the different operations validated concurrently, each with exactly its own required header
+	// (accepted alone) or without it (rejected alone, naming ITS header). Whoever treats the path item's list as
+	// scratch space (append, in-place edits) makes one operation's requests be judged by another's parameters.
+	maxItem := 8
+	if ctx.Thorough() {
+		maxItem = 17 // … 9-15 have spare capacity again, 16 has none
+	}
+	for nItem := 0; nItem <= maxItem; nItem++ {
+		for variant := 0; variant < 2; variant++ {
+			n++
+			emit(c15PathItemCase(nItem, variant, n))
+		}
+	}
+	// the same for lists inside schemas: `type` lists (unsorted, 2-6 entries) with values of none of the types, enums,
+	// 3-name `required`, 3-branch compositions — first mismatch raced in a fresh process as well
+	for _, cold := range []bool{true, false} {
+		for v := 0; v < 3; v++ {
+			n++
+			emit(c15SchemaListCase(v, cold, n))
+		}
+	}
 	// single goroutine: the sequential behaviour of the same machinery (trivial cases)
 	emit(hx.Case{"doc": c15SinkDoc("one"), "calls": []any{c15SinkCall("vreq", 0), c15SinkCall("visit", 1)}, "g": 1, "per": 2, "rounds": 1, "cold": false, "sched": 1})
 
 	nCold, nWarm := 110, 260
 	if ctx.Thorough() {
-		nCold, nWarm = 1500, 5000
+		nCold, nWarm = 1400, 4600
 	}
 	for i := 0; i < nCold+nWarm; i++ {
 		cold := i%((nCold+nWarm)/nCold) == 0
-		g := &c15Gen{r: r, tag: fmt.Sprintf("s%dc%d", ctx.Seed, i), sharedDefaults: i%5 == 4}
+		g := &c15Gen{r: r, tag: fmt.Sprintf("s%dc%d", ctx.Seed, i), sharedDefaults: i%5 == 4, lists: i%3 != 0}
 		doc := g.doc(1 + r.Intn(3))
 		nc := 2 + r.Intn(5)
 		var calls []any
